@@ -104,6 +104,78 @@ theorem version_files_present (fmt reffmt ext refext readme : String) (entries :
   · exact (bundleMembers_iff ..).2 (Or.inr (Or.inl ⟨e, he, hg,
       (entryMembers_spec _ ext refext e data _).2 (Or.inl ⟨v, hv, bs, ref, hd, Or.inr rfl⟩)⟩))
 
+
+/-! ### file names map back to basis names -/
+
+theorem split_last_dot : ∀ (K K' v v' : List Char), '.' ∉ v → '.' ∉ v' → K ++ '.' :: v = K' ++ '.' :: v' → K = K' ∧ v = v' := by
+  intro K
+  induction K with
+  | nil =>
+    intro K' v v' hv hv' h
+    cases K' with
+    | nil => simp at h; exact ⟨rfl, h⟩
+    | cons c Ks =>
+      simp only [List.nil_append, List.cons_append, List.cons.injEq] at h
+      exact absurd (h.2 ▸ (by simp : '.' ∈ Ks ++ '.' :: v')) hv
+  | cons c Ks ih =>
+    intro K' v v' hv hv' h
+    cases K' with
+    | nil =>
+      simp only [List.nil_append, List.cons_append, List.cons.injEq] at h
+      exact absurd (h.2 ▸ (by simp : '.' ∈ Ks ++ '.' :: v)) hv'
+    | cons c' Ks' =>
+      simp only [List.cons_append, List.cons.injEq] at h
+      obtain ⟨h1, h2⟩ := ih Ks' v v' hv hv' h.2
+      exact ⟨by rw [h.1, h1], h2⟩
+
+theorem name_injective (pre suf k k' v v' : String) (hv : '.' ∉ v.toList) (hv' : '.' ∉ v'.toList)
+    (h : pre ++ k ++ "." ++ v ++ suf = pre ++ k' ++ "." ++ v' ++ suf) : k = k' ∧ v = v' := by
+  have h1 := congrArg String.toList h
+  simp only [String.toList_append] at h1
+  have hd : (".":String).toList = ['.'] := rfl
+  rw [hd] at h1
+  have h2 : (pre.toList ++ (k.toList ++ '.' :: v.toList)) ++ suf.toList = (pre.toList ++ (k'.toList ++ '.' :: v'.toList)) ++ suf.toList := by
+    simpa [List.append_assoc] using h1
+  have h3 := List.append_cancel_left (List.append_cancel_right h2)
+  obtain ⟨a, b⟩ := split_last_dot _ _ _ _ hv hv' h3
+  exact ⟨String.toList_inj.1 a, String.toList_inj.1 b⟩
+
+/-- **file names map back to basis names**: the name of a basis file (and of a reference file) determines the basis — in the
+index' file-name form, which `get_basis` accepts — and the version, whatever characters the name contains (dots included: the
+version is the last dot-separated piece in front of the extension, and versions are digit strings); the name of a notes file
+determines the basis.  Two different (basis, version) pairs therefore never share a member name, so "exactly one basis file
+and one reference file" cannot be met by overwriting -/
+theorem file_names_map_back (sub ext refext : String) (k k' v v' : String) (hv : '.' ∉ v.toList) (hv' : '.' ∉ v'.toList) :
+    (sub ++ "/" ++ k ++ "." ++ v ++ ext = sub ++ "/" ++ k' ++ "." ++ v' ++ ext → k = k' ∧ v = v')
+    ∧ (sub ++ "/" ++ k ++ "." ++ v ++ ".ref" ++ refext = sub ++ "/" ++ k' ++ "." ++ v' ++ ".ref" ++ refext → k = k' ∧ v = v')
+    ∧ (sub ++ "/" ++ k ++ ".notes" = sub ++ "/" ++ k' ++ ".notes" → k = k') := by
+  refine ⟨fun h => name_injective (sub ++ "/") ext k k' v v' hv hv' h, fun h => ?_, fun h => ?_⟩
+  · have h' : sub ++ "/" ++ k ++ "." ++ v ++ (".ref" ++ refext) = sub ++ "/" ++ k' ++ "." ++ v' ++ (".ref" ++ refext) := by
+      simpa [String.append_assoc] using h
+    exact name_injective (sub ++ "/") (".ref" ++ refext) k k' v v' hv hv' h'
+  · have h1 := congrArg String.toList h
+    simp only [String.toList_append] at h1
+    have h2 := List.append_cancel_left (List.append_cancel_right h1)
+    exact String.toList_inj.1 h2
+
+/-- the members of two different versions of one basis, and of one version of two different bases, have different names -/
+theorem version_members_disjoint (sub ext refext k k' v v' : String) (hv : '.' ∉ v.toList) (hv' : '.' ∉ v'.toList)
+    (d d' : String × String) (hne : (k, v) ≠ (k', v')) :
+    ((versionMembers sub ext refext k v (some d)).map (·.1))[0]? ≠ ((versionMembers sub ext refext k' v' (some d')).map (·.1))[0]?
+    ∧ ((versionMembers sub ext refext k v (some d)).map (·.1))[1]? ≠ ((versionMembers sub ext refext k' v' (some d')).map (·.1))[1]? := by
+  obtain ⟨bs, rf⟩ := d
+  obtain ⟨bs', rf'⟩ := d'
+  obtain ⟨h1, h2, _⟩ := file_names_map_back sub ext refext k k' v v' hv hv'
+  constructor
+  · intro h
+    simp only [versionMembers, List.map_cons, List.map_nil, List.getElem?_cons_zero, Option.some.injEq] at h
+    obtain ⟨a, b⟩ := h1 h
+    exact hne (by rw [a, b])
+  · intro h
+    simp only [versionMembers, List.map_cons, List.map_nil, List.getElem?_cons_succ, List.getElem?_cons_zero, Option.some.injEq] at h
+    obtain ⟨a, b⟩ := h2 h
+    exact hne (by rw [a, b])
+
 example : gate "veloxchem" ["gto", "scalar_ecp"] = false ∧ gate "nwchem" ["gto", "scalar_ecp"] = true ∧ gate "json" ["anything"] = true := by
   decide
 
